@@ -192,7 +192,11 @@ func (c *packetConn) getWriteHandler(b []byte, to net.Addr, cb AsyncWriteCallbac
 }
 
 func (c *packetConn) Close() error {
-	atomic.StoreUint32(&c.closed, 1)
+	// Only the first Close owns the descriptor: afterwards the kernel may hand
+	// the same number to someone else.
+	if !atomic.CompareAndSwapUint32(&c.closed, 0, 1) {
+		return io.EOF
+	}
 	_ = c.ioc.UnsetReadWrite(&c.slot)
 	c.ioc.Deregister(&c.slot)
 	return syscall.Close(c.slot.Fd)
